@@ -336,7 +336,11 @@ def glue_work(P, item):
             if factor > n:
                 P.obligation(f"downsample_1d[{method},n={n},factor={factor}] refused (factor > size)", "holds", symbolic=False)
             else:
-                P.inconclusive_(f"downsample_1d[{method},n={n},factor={factor}] raised ValueError")
+                # a factor that fits the array is a valid request: refusing it violates the definition
+                params = dict(kind="ds1d_glue", n=n, factor=factor, method=method)
+                src = ("import sys, json\nfrom symx.concrete import c14\n"
+                       f"sys.exit(c14.main(json.loads({json.dumps(json.dumps(params))})))\n")
+                P.violation(f"downsample_1d_{method}_n{n}_factor{factor}_refused", f"downsample_1d[{method},n={n},factor={factor}] raised ValueError although factor <= size", src, model=params)
             P.reached += 1
             return
         bad = [z3.BoolVal(len(out) != n // factor or factor > n)]
@@ -371,7 +375,12 @@ def glue_work(P, item):
             from sigpyproc import block
             sfn = rebind(stats.downsample_2d, np=npx)
 
-            class St:
+            class _StM(type):
+                def __getattr__(cls, name):
+                    # any other function of sigpyproc.core.stats the (modified) method reaches for: its real bytecode
+                    return rebind(getattr(stats, name), np=npx, kernels=KInterp())
+
+            class St(metaclass=_StM):
                 downsample_2d = staticmethod(sfn)
 
             class H:
@@ -383,8 +392,30 @@ def glue_work(P, item):
             class B:
                 def __init__(self, data, hdr):
                     self.data, self.header = data, hdr
+
+                def __getattr__(self, name):
+                    # other attributes of a block (nchans, nsamples, ...): the real class's own property / method
+                    if name.startswith("__"):
+                        raise AttributeError(name)
+                    for klass in block.FilterbankBlock.__mro__:
+                        a = klass.__dict__.get(name)
+                        if isinstance(a, property):
+                            return a.fget(self)
+                        if callable(a):
+                            import types as _t
+                            return _t.MethodType(a, self)
+                    raise AttributeError(name)
             me = B(x.view(VIEW), H())
-            res = rebind(block.FilterbankBlock.downsample, stats=St, FilterbankBlock=B)(me, ffactor=f1, tfactor=f2, filter_method=method)
+            try:
+                res = rebind(block.FilterbankBlock.downsample, stats=St, FilterbankBlock=B)(me, ffactor=f1, tfactor=f2, filter_method=method)
+            except (ValueError, IndexError, TypeError, ZeroDivisionError) as ex:
+                # valid factors on a valid block: the method must not refuse
+                params = dict(kind="ds2d_glue", which="block", dims=[d1, d2], factors=[f1, f2], method=method, dtype="uint8" if typed else "float64", data=None)
+                src = ("import sys, json\nfrom symx.concrete import c14\n"
+                       f"sys.exit(c14.main(json.loads({json.dumps(json.dumps(params))})))\n")
+                P.violation(f"block_downsample_{d1}x{d2}_{f1}_{f2}_raised", f"FilterbankBlock.downsample[{d1}x{d2},({f1},{f2})] raised {type(ex).__name__}: {ex}", src, model=params)
+                P.reached += 1
+                return
             out = res.data
             ch = res.header
             P.stats.queries += 1
@@ -410,7 +441,11 @@ def glue_work(P, item):
         from sigpyproc import timeseries
         sfn = rebind(stats.running_filter, np=npx, bn=BN)
 
-        class St:
+        class _StM2(type):
+            def __getattr__(cls, name):
+                return rebind(getattr(stats, name), np=npx, bn=BN, kernels=KInterp())
+
+        class St(metaclass=_StM2):
             running_filter = staticmethod(sfn)
 
         class H:
